@@ -86,6 +86,8 @@ class Collector:
         self.known_hits = Counter()
         self.samples = []
         self.last_failure = None
+        self.first_failure_at = None
+        self.shrink_budget = 20.0
         self.harness_error = None
 
     def run(self, case):
@@ -125,6 +127,7 @@ def _worker(job):
         known = load_known(pid)
         col = Collector(mod, known)
         params = dict(mod.TIERS[tier])
+        col.shrink_budget = float(params.get("shrink_seconds", 20 if tier == "quick" else 90))
         if kind == "hyp":
             _run_hypothesis(mod, col, params, seed, idx, n)
         elif kind == "enum":
@@ -138,13 +141,22 @@ def _worker(job):
 
 
 def _guarded(col, case, source):
+    if col.first_failure_at is not None and time.time() - col.first_failure_at > col.shrink_budget:
+        # shrink budget used up: freeze the best failing case found so far (it keeps failing, everything else passes,
+        # so the shrinker stops making progress and Hypothesis' final replay is consistent). Only the size of the
+        # reported example depends on this wall-clock budget, never the verdict.
+        if digest(case) == col.last_failure["digest"]:
+            raise _Violation(col.last_failure["violations"][0][0])
+        return
     try:
         unlisted = col.run(case)
     except Exception:  # anything escaping check() is a defect of the harness, never a verdict
         col.harness_error = f"exception in check() on case from {source}:\n{traceback.format_exc()}\ncase={json.dumps(case, default=str)[:3000]}"
         raise _HarnessAbort()
     if unlisted:
-        col.last_failure = dict(case=_jsonable(case), violations=unlisted, source=source)
+        col.last_failure = dict(case=_jsonable(case), violations=unlisted, source=source, digest=digest(case))
+        if col.first_failure_at is None:
+            col.first_failure_at = time.time()
         raise _Violation(unlisted[0][0])
 
 
